@@ -30,7 +30,8 @@ def jobs(tier, seed, report):
     report.bounds = {'from_str_string_length': f'<= {nmax} bytes, every byte symbolic over 0..127 (all ASCII), exhaustive over byte classes',
                      'lexer_string_length': f'<= {lexn} chars (literal alphabet + one arbitrary other ASCII char class), optional trailing %',
                      'exponent_value': 'unbounded (uninterpreted pow10 shared with the oracle); u32 overflow of the exponent accumulator is unreachable within the length bound'}
-    report.outside = [f'literals longer than {nmax} bytes (from_str) / {lexn} chars (lexer)', 'non-ASCII bytes inside a literal (rejected by the same `_` arm as any other byte)',
+    report.bounds['long_literals'] = 'shapes sign? digits{0,1,9,17} (. digits{0,1,9,17})? (e sign? digits{1,3})? with every position symbolic inside its class; in a run of digits the first two may be any digit, the rest are 1..9 (quick: every third shape)'
+    report.outside = [f'literals longer than {nmax} bytes that are not of a listed long shape (from_str) / {lexn} chars (lexer)', 'non-ASCII bytes inside a literal (rejected by the same `_` arm as any other byte)',
                       'num-bigint / num-rational themselves (modelled as Int / Real)']
     report.assumptions = ['BigInt/BigRational are exact (modelled as SMT Int/Real)', 'pow10(e) > 0 is the only fact used about 10^e with a symbolic exponent',
                           'library models: str::bytes, Peekable, Option/Result plumbing, u32::checked_*, chars/get/len_utf8 for the lexer']
@@ -38,7 +39,19 @@ def jobs(tier, seed, report):
     report.required_witnesses = ['accepted-in-grammar', 'accepted-neg-exponent', 'accepted-fraction', 'rejected', 'lexer-number-token', 'lexer-percent']
     js = [{'name': f'from_str-N{n}', 'kind': 'from_str', 'N': n} for n in range(0, nmax + 1)]
     js += [{'name': f'lexer-N{n}', 'kind': 'lexer', 'N': n} for n in range(1, lexn + 1)]
-    js.sort(key=lambda j: -j['N'])
+    # long literals: every position restricted to one CLASS (digit / point / exponent marker / sign) but symbolic inside it,
+    # so the digit loop is exercised far beyond the exhaustive length bound (leading zeros, many fraction digits, exponent)
+    shapes = []
+    for a in (0, 1, 9, 17):
+        for b in (None, 0, 1, 9, 17):
+            for ex in (None, 'd', 'sd', 'sddd'):
+                if a == 0 and not b: continue
+                run = lambda k: 'd' * min(k, 2) + 'n' * max(k - 2, 0)      # the reader tests every digit for '0': only a few may be zero, or paths double per digit
+                sh = 's' * (a % 2) + run(a) + ('' if b is None else '.' + run(b)) + ('' if ex is None else 'e' + ex)
+                shapes.append(sh)
+    if tier == 'quick': shapes = shapes[::3]
+    js += [{'name': f'long-{sh}', 'kind': 'from_str', 'N': len(sh), 'classes': sh} for sh in shapes]
+    js.sort(key=lambda j: -j['N'] if 'classes' not in j else 0)
     return js
 
 # ---------------------------------------------------------------- symbolic oracle
@@ -106,6 +119,8 @@ def job_from_str(I, job, res, prefixes, budget, deadline):
     FROM_STR = [b for k, bl in I.bodies.items() if k.endswith('::from_str') and 'rational' in k for b in bl][0]
     def entry(I):
         bs = sym_string(I, N)
+        for b, c in zip(bs, job.get('classes') or ''):
+            I.assume({'d': z3.And(b >= 48, b <= 57), 'n': z3.And(b >= 49, b <= 57), '.': b == 46, 'e': z3.Or(b == 101, b == 69), 's': z3.Or(b == 43, b == 45)}[c])
         I.path_state['bs'] = bs
         s = StrS([(VInt(b, 'char'), 1) for b in bs])
         return I.run_body(FROM_STR, [VRef(Cell(s), [])])
@@ -136,7 +151,12 @@ def job_from_str(I, job, res, prefixes, budget, deadline):
         def on_sat(m):
             res['candidates'].append({'role': 'wrong-value', 'case': {'op': 'parse_rational', 'text': concrete(m, bs)},
                                       'detail': f'impl={m.eval(val)} spec={m.eval(sv)}'})
-        res.obligation(I, val != sv, 'from_str value == literal value', on_sat)
+        try:
+            import ratfun
+            P, _, zero = ratfun.difference(val, sv); neg = (P != 0) if not zero else False
+        except Exception:
+            neg = val != sv
+        res.obligation(I, neg, 'from_str value == literal value (expanded polynomial form)', on_sat)
         if len(res['samples']) < 3 and N >= 3:
             rr, m = I.model_for(None)
             if m is not None:
